@@ -159,6 +159,21 @@ func (in *Interp) funcValue(fn *ssa.Function) *FuncV {
 	if f, ok := in.funcVals[fn]; ok {
 		return f
 	}
+	// a method expression (*T).M compiles to a reference to the method's own symbol; go/ssa
+	// wraps it in a "$thunk" with the receiver as first parameter. Give it the identity
+	// (code address) of the method, the same one reflect's Method(i).Func has.
+	if strings.HasPrefix(fn.Synthetic, "thunk for") && len(fn.Blocks) == 1 {
+		for _, ins := range fn.Blocks[0].Instrs {
+			if c, ok := ins.(*ssa.Call); ok {
+				if callee := c.Call.StaticCallee(); callee != nil && callee.Signature.Recv() != nil && fn.Signature.Params().Len() > 0 &&
+					types.Identical(callee.Signature.Recv().Type(), fn.Signature.Params().At(0).Type()) {
+					f := in.methodFuncV(callee, fn.Signature)
+					in.funcVals[fn] = f
+					return f
+				}
+			}
+		}
+	}
 	in.nextFuncID++
 	f := &FuncV{fn: fn, typ: fn.Signature, id: in.nextFuncID, name: fn.String()}
 	in.funcVals[fn] = f
